@@ -134,7 +134,10 @@ def make_body(fn: str, spec: Dict[str, Any]) -> Callable[..., Any]:
         ex.node_exit(key, ok=True)
         return val
 
-    body.__name__ = body.__qualname__ = fn
+    body.__name__ = fn
+    # user functions are often defined inside other functions: their qualified name (which tawazi uses as the
+    # node id) then contains dots and angle brackets
+    body.__qualname__ = spec.get("qual", fn)
     body.__module__ = "vlib.generated"
     body.__annotations__ = {}  # tawazi inspects the return annotation when unpack_to is set
     return body
